@@ -82,3 +82,43 @@ def unit_using_bool():
            'def textBranch : String := "clean = value.lower().strip(); true set, false set, none set, else ValueError"\n',
            "end Gen.UsingBool\n"]
     return "\n".join(out)
+
+
+@unit("Decisions")
+def unit_decisions():
+    """the clamp / refuse helpers of passlib/utils/handlers.py translated statement by statement (tools/pystmt2lean.py):
+    norm_integer, HasSalt._clip_to_valid_salt_size, HasRounds._clip_to_desired_rounds"""
+    import pystmt2lean as ps
+
+    from extract_core import find_def, src_ast
+
+    tree = src_ast("passlib/utils/handlers.py")
+    out = [HEADER.format(src="passlib/utils/handlers.py (norm_integer, HasSalt._clip_to_valid_salt_size, HasRounds._clip_to_desired_rounds)"),
+           "import PasslibVerif.Py.Basic\n", "namespace Gen.Decisions\nopen Py\n"]
+    guards = []
+    src, g = ps.function(find_def(tree, "norm_integer"), "normInteger", [("value", "int", "value"), ("min", "int", "lo"), ("max", "opt", "hi"), ("relaxed", "bool", "relaxed")])
+    out.append("/-- `norm_integer(handler, value, min, max, relaxed=…)` -/\n" + src)
+    guards += g
+    src, g = ps.function(find_def(tree, "HasSalt._clip_to_valid_salt_size"), "clipSaltSize",
+                         [("min_salt_size", "int", "minSaltSize"), ("max_salt_size", "opt", "maxSaltSize"), ("relaxed", "bool", "relaxed"), ("salt_size", "int", "saltSize")])
+    out.append("/-- `HasSalt._clip_to_valid_salt_size(salt_size, relaxed=…)` with the class attributes as parameters -/\n" + src)
+    guards += g
+    src, g = ps.function(find_def(tree, "HasRounds._clip_to_desired_rounds"), "clipDesiredRounds",
+                         [("min_desired_rounds", "opt", "minDesired"), ("max_desired_rounds", "opt", "maxDesired"), ("rounds", "int", "rounds")])
+    out.append("/-- `HasRounds._clip_to_desired_rounds(rounds)` with the class attributes as parameters -/\n" + src)
+    guards += g
+    src, g = ps.function(find_def(tree, "HasRounds._calc_needs_update"), "roundsNeedsUpdate",
+                         [("min_desired_rounds", "opt", "minDesired"), ("max_desired_rounds", "opt", "maxDesired"), ("rounds", "int", "rounds"), ("super_result", "bool", "superResult")],
+                         result="bool")
+    out.append("/-- `HasRounds._calc_needs_update()`: class attributes, the parsed cost and the answer of the next class in the MRO as parameters -/\n" + src)
+    guards += g
+    for path, qual, lean_name, attr in (("passlib/utils/handlers.py", "ParallelismMixin._calc_needs_update", "parallelismNeedsUpdate", "parallelism"),
+                                        ("passlib/handlers/scrypt.py", "scrypt._calc_needs_update", "scryptNeedsUpdate", "block_size"),
+                                        ("passlib/handlers/bcrypt.py", "bcrypt_sha256._calc_needs_update", "bcryptSha256NeedsUpdate", "version")):
+        t2 = tree if path.endswith("utils/handlers.py") else src_ast(path)
+        src, g = ps.function(find_def(t2, qual), lean_name, [(attr, "int", "own"), ("cls_" + attr, "int", "configured"), ("super_result", "bool", "superResult")], result="bool")
+        out.append(f"/-- `{qual}()`: the hash's own `{attr}`, the class's configured one and the answer of the next class in the MRO as parameters -/\n" + src)
+        guards += g
+    out.append("/-- type guards the translator saw and left to the typed signature -/\ndef typeGuards : List String := [" + ", ".join(lean_str(x) for x in guards) + "]\n")
+    out.append("end Gen.Decisions\n")
+    return "\n".join(out)
